@@ -1,8 +1,11 @@
 mod bits;
+mod c01;
 mod c02;
 mod c03;
 mod c05;
 mod c07;
+mod c11;
+mod rtext;
 mod common;
 mod cprref;
 mod e1;
@@ -13,6 +16,9 @@ mod refdec;
 mod tools;
 
 use common::{silence_panics, Tier};
+
+#[global_allocator]
+static GLOBAL: c01::Meter = c01::Meter;
 
 fn main() {
     let args: Vec<String> = std::env::args().collect();
@@ -26,6 +32,7 @@ fn main() {
         _ => Tier::Quick,
     };
     let code = match args[1].as_str() {
+        "C01" => c01::run(tier),
         "C02" => c02::run(tier),
         "C03" => c03::run(tier),
         "C04" => fields::c04(tier),
@@ -35,6 +42,7 @@ fn main() {
         "C08" => fields::generic(tier, "C08", &[8]),
         "C09" => fields::generic(tier, "C09", &[9]),
         "C10" => fields::generic(tier, "C10", &[10]),
+        "C11" => c11::run(tier),
         "replay" => fields::replay(&args[2]),
         "mkfeed" => tools::mkfeed(),
         "feed2table" => tools::feed2table(&args[2..]),
